@@ -111,7 +111,6 @@ class World:
     # ---------------------------------------------------------------- state
     def load_state(self, spec):
         m = self.m
-        self.broker._assets.clear()
         for name, bal in spec["wallet"]:
             self.broker.set_balance(self.tokens[name], D(bal))
         self.uni._positions.clear()
